@@ -133,7 +133,7 @@ func blockClass(n int) string {
 }
 
 func runC02(c *core.Ctx) {
-	n := c.N(20000, 500000)
+	n := c.N(20000, 8000000)
 	for i := int64(0); i < n; i++ {
 		if !c.Mine("mic", i) {
 			continue
